@@ -13,6 +13,7 @@ import (
 	"github.com/blinklabs-io/gouroboros/protocol/chainsync"
 	pcommon "github.com/blinklabs-io/gouroboros/protocol/common"
 	"github.com/blinklabs-io/gouroboros/protocol/leiosnotify"
+	"github.com/blinklabs-io/gouroboros/protocol/leiosvotes"
 	"github.com/blinklabs-io/gouroboros/protocol/txsubmission"
 	rt "github.com/blinklabs-io/gouroboros/verifsimrt"
 )
@@ -314,7 +315,25 @@ func advCallsSetup(s *rt.Sim, tier string) func() {
 			}
 			return nil
 		}))
-		opts := append(co.options(pair.A), ouroboros.WithChainSyncConfig(csCfg), ouroboros.WithBlockFetchConfig(bfCfg), ouroboros.WithTxSubmissionConfig(txCfg), ouroboros.WithLeiosNotifyConfig(lnCfg))
+		// leios-votes application: one vote per request, one or two requests in flight; the
+		// callback fails, asks to stop, or is merely slow at its second vote
+		lvCalls := 0
+		lvMode := pick("op.lv", 3)
+		lvCfg := leiosvotes.NewConfig(leiosvotes.WithRequestNextCount(1), leiosvotes.WithPipelineLimit(1+pick("op.lv", 2)),
+			leiosvotes.WithVoteFunc(func(ctx leiosvotes.CallbackContext, v leiosvotes.Vote) error {
+				lvCalls++
+				if lvCalls >= 2 {
+					sleep(oneOf("op.lv", time.Millisecond, 200*time.Millisecond, 2*time.Second))
+					switch lvMode {
+					case 1:
+						return errors.New("harness: the application cannot use this vote")
+					case 2:
+						return leiosvotes.ErrStopVoteProcess
+					}
+				}
+				return nil
+			}))
+		opts := append(co.options(pair.A), ouroboros.WithChainSyncConfig(csCfg), ouroboros.WithBlockFetchConfig(bfCfg), ouroboros.WithTxSubmissionConfig(txCfg), ouroboros.WithLeiosNotifyConfig(lnCfg), ouroboros.WithLeiosVotesConfig(lvCfg))
 		peer := newRawPeer(pair.B)
 		var conn *ouroboros.Connection
 		var cErr error
@@ -417,6 +436,28 @@ func advCallsSetup(s *rt.Sim, tier string) func() {
 					}
 					for i := 0; i < 120 && lnCalls < 2; i++ {
 						sleep(time.Second)
+					}
+					return nil
+				}},
+				apiCall{"leiosvotes.RequestNext", "leiosvotes", specLeiosVotes, leiosvotes.ProtocolId, func(c *ouroboros.Connection) error {
+					votes, err := c.LeiosVotes().Client.RequestNext(1)
+					if err == nil && len(votes) != 1 {
+						return fmt.Errorf("RequestNext(1) returned %d votes", len(votes))
+					}
+					if err == nil && chance("op.lv", 1, 2) {
+						_, err = c.LeiosVotes().Client.RequestNext(1)
+					}
+					return err
+				}},
+				apiCall{"leiosvotes.Sync+Stop", "leiosvotes", specLeiosVotes, leiosvotes.ProtocolId, func(c *ouroboros.Connection) error {
+					if err := c.LeiosVotes().Client.Sync(); err != nil {
+						return err
+					}
+					for i := 0; i < 60 && lvCalls < 2; i++ {
+						sleep(time.Second)
+					}
+					if chance("op.lv", 1, 2) {
+						return c.LeiosVotes().Client.Stop()
 					}
 					return nil
 				}},
